@@ -3,6 +3,9 @@ import Qentem.Model.ValueOps
 import Qentem.Proofs.ValueSlots
 import Qentem.Proofs.ValueDoc
 import Qentem.Proofs.ValueEnv
+import Qentem.Proofs.ValuePath
+import Qentem.Proofs.ValueWF
+import Qentem.Proofs.Group
 /-!
 C12 — a Value behaves as an abstract JSON document under every operation sequence.
 
@@ -301,6 +304,106 @@ theorem copy_root (fmtReal : Nat → List Nat) (env : Env) (a b : Nat) (hab : a 
     let env' := (step fmtReal (Op.copy ⟨a, []⟩ ⟨b, []⟩) env).1
     envGet env' a = copyDoc (envGet env b) ∧ envGet env' b = envGet env b := by
   simp [step, source, hab, getAt, onTarget, updPath, envGet, envSet, List.getElem?_set, ha, Ne.symm hab]
+
+/-! ## copy and move between nested locations
+
+The operands of a two-operand operation live in different roots: `source` yields nothing when
+`t.root = s.root` (`aliasing_excluded`), which is the precondition the harness checks before calling the
+real code and the generator respects (self copy/move assignment of a whole root is the guarded no-op of
+Value.hpp).  Source inside destination / destination inside source (`v = v[k]`, `v[k] = v`) is therefore
+excluded, not proved. -/
+
+/-- get-after-set at any path: a chain of subscripts followed by an assignment is read back by the same
+chain of `GetValue` calls, whatever the target held. -/
+theorem get_after_set_path (fmtReal : Nat → List Nat) (env : Env) (t : Loc) (y : Doc) (hy : y.isUndef = false)
+    (ht : t.root < env.length) :
+    getAt (envGet (step fmtReal (Op.assign t y) env).1 t.root) t.path = some y := by
+  simp only [step, onTarget, envGet_envSet_same _ _ _ ht]
+  exact getAt_updPath t.path y hy _
+
+/-- **get-after-copy at any path**: the target location (reached through vivifying subscripts) reads a
+copy of the source member (found through `GetValue` calls), and the source root is unchanged. -/
+theorem copy_nested (fmtReal : Nat → List Nat) (env : Env) (t s : Loc) (x : Doc) (hts : t.root ≠ s.root)
+    (ht : t.root < env.length) (hx : getAt (envGet env s.root) s.path = some x) (hd : x.isUndef = false) :
+    let env' := (step fmtReal (Op.copy t s) env).1
+    getAt (envGet env' t.root) t.path = some (copyDoc x) ∧ envGet env' s.root = envGet env s.root := by
+  have hsrc : source env t s = some x := by simp [source, hts, hx]
+  simp only [step, hsrc, onTarget]
+  refine ⟨?_, envGet_envSet_other _ _ _ _ (Ne.symm hts)⟩
+  rw [envGet_envSet_same _ _ _ ht]
+  exact getAt_updPath t.path _ (by simp [isUndef_copyDoc, hd]) _
+
+/-- **get-after-move at any path**: the target reads exactly the source member; the moved-from member is
+Undefined (a moved-from root) or no longer found along its path (a nested member). -/
+theorem move_nested (fmtReal : Nat → List Nat) (env : Env) (t s : Loc) (x : Doc) (hts : t.root ≠ s.root)
+    (ht : t.root < env.length) (hs : s.root < env.length)
+    (hx : getAt (envGet env s.root) s.path = some x) (hd : x.isUndef = false) :
+    let env' := (step fmtReal (Op.move t s) env).1
+    getAt (envGet env' t.root) t.path = some x ∧
+    (s.path = [] → envGet env' s.root = undef) ∧
+    (s.path ≠ [] → getAt (envGet env' s.root) s.path = none) := by
+  have hsrc : source env t s = some x := by simp [source, hts, hx]
+  have hlen : t.root < (clearSource env s).length := by simpa [clearSource, envSet] using ht
+  simp only [step, hsrc, onTarget]
+  refine ⟨?_, ?_, ?_⟩
+  · rw [envGet_envSet_same _ _ _ hlen]
+    exact getAt_updPath t.path x hd _
+  · intro hp
+    rw [envGet_envSet_other _ _ _ _ (Ne.symm hts)]
+    simp [clearSource, envGet_envSet_same _ _ _ hs, hp, modAt]
+  · intro hp
+    rw [envGet_envSet_other _ _ _ _ (Ne.symm hts)]
+    simp only [clearSource, envGet_envSet_same _ _ _ hs]
+    exact getAt_modAt_undef s.path hp _ x hx
+
+/-- **independence for arbitrary paths**: after a copy, whatever is done to roots other than the source's
+(in particular any mutation of the copy) leaves the source member as it was … -/
+theorem copy_source_independent (fmtReal : Nat → List Nat) (env : Env) (t s : Loc) (x : Doc) (ops : List Op)
+    (hx : getAt (envGet env s.root) s.path = some x) (hops : ∀ op ∈ ops, s.root ∉ touched op) :
+    getAt (envGet (runFinal fmtReal ops (step fmtReal (Op.copy t s) env).1) s.root) s.path = some x := by
+  rw [run_frame fmtReal ops _ s.root hops]
+  by_cases hts : t.root = s.root
+  · simp [step, source, hts, hx]
+  · have : envGet (step fmtReal (Op.copy t s) env).1 s.root = envGet env s.root :=
+      step_frame fmtReal _ env s.root (by simp [touched]; exact fun h => hts h.symm)
+    rw [this, hx]
+
+/-- … and whatever is done to roots other than the copy's (in particular any mutation of the source)
+leaves the copy as it was. -/
+theorem copy_target_independent (fmtReal : Nat → List Nat) (env : Env) (t s : Loc) (x : Doc) (ops : List Op)
+    (hts : t.root ≠ s.root) (ht : t.root < env.length)
+    (hx : getAt (envGet env s.root) s.path = some x) (hd : x.isUndef = false)
+    (hops : ∀ op ∈ ops, t.root ∉ touched op) :
+    getAt (envGet (runFinal fmtReal ops (step fmtReal (Op.copy t s) env).1) t.root) t.path = some (copyDoc x) := by
+  rw [run_frame fmtReal ops _ t.root hops]
+  exact (copy_nested fmtReal env t s x hts ht hx hd).1
+
+/-- the aliasing precondition: two-operand operations between locations of the same root are not
+performed (the forest is unchanged). -/
+theorem aliasing_excluded (fmtReal : Nat → List Nat) (env : Env) (t s : Loc) (k : Key) (h : t.root = s.root) :
+    (step fmtReal (Op.copy t s) env).1 = env ∧ (step fmtReal (Op.move t s) env).1 = env ∧
+    (step fmtReal (Op.appendMove t s) env).1 = env ∧ (step fmtReal (Op.appendCopy t s) env).1 = env ∧
+    (step fmtReal (Op.mergeMove t s) env).1 = env ∧ (step fmtReal (Op.mergeCopy t s) env).1 = env ∧
+    (step fmtReal (Op.insertMove t k s) env).1 = env ∧ (step fmtReal (Op.assignObj t s) env).1 = env ∧
+    (step fmtReal (Op.assignArr t s) env).1 = env ∧ (step fmtReal (Op.appendObj t s) env).1 = env ∧
+    (step fmtReal (Op.appendArr t s) env).1 = env := by
+  simp [step, source, h]
+
+/-! ## the invariant of every reachable state -/
+
+/-- **every forest an operation sequence reaches from undefined roots is well formed**: in every object,
+at every depth, the live keys are pairwise distinct (so `removed_key_not_found` and C18's `GoodItem`
+hypothesis `keysNodup` hold for every object the API can build). -/
+theorem reachable_WF (fmtReal : Nat → List Nat) (n : Nat) (ops : List Op) (hp : ∀ op ∈ ops, op.payloadWF) :
+    EnvWF (runFinal fmtReal ops (List.replicate n undef)) :=
+  run_WF fmtReal ops _ (EnvWF_replicate_undef n) hp
+
+/-- instance: in a reachable forest a removed key is not found in any object a `GetValue` chain reaches. -/
+theorem reachable_removed_key_not_found (fmtReal : Nat → List Nat) (n : Nat) (ops : List Op)
+    (hp : ∀ op ∈ ops, op.payloadWF) (r : Nat) (p : List Sel) (c : Nat) (s : List Slot) (k : Key)
+    (h : getAt (envGet (runFinal fmtReal ops (List.replicate n undef)) r) p = some (obj c s)) :
+    childKey (removeKey k (obj c s)) k = none :=
+  removed_key_not_found k c s ((WF_obj c s).1 (WF_getAt p _ _ (reachable_WF fmtReal n ops hp r) h)).1
 
 /-! ## typed getters and coercions (`strToNum` is arbitrary: it is only consulted for strings) -/
 
